@@ -11,6 +11,7 @@ CONSTANTS
   Tier = "%s"
   SuffixChecked = %s
   RootRegexChecked = %s
+  OptionsSelectedOnly = %s
 INVARIANTS Check
 CHECK_DEADLOCK FALSE
 """
@@ -254,12 +255,19 @@ def check(run, replay=None):
 
         def run_mode(mm):
             mode, mtier = mm
-            return mm, tlc(run, "MC_Routing", MC_CFG % (mode, mtier, "TRUE", "TRUE"), workers=per, heap="6g",
+            return mm, tlc(run, "MC_Routing", MC_CFG % (mode, mtier, "TRUE", "TRUE", "TRUE"), workers=per, heap="6g",
                            tag="MC_Routing-%s-%s" % (mode, mtier), timeout=7200)
 
         # the pools are independent models: explored side by side
         with cf.ThreadPoolExecutor(max_workers=3) as ex:
             results = list(ex.map(run_mode, modes))
+        if run.prop == "C17":
+            # vacuity control: the legacy walk over ALL WebServices must be refuted at model level
+            r = tlc(run, "MC_Routing", MC_CFG % ("agree", "quick", "TRUE", "TRUE", "FALSE"), workers=NCPU, heap="6g",
+                    tag="MC_Routing-agree-legacy-options", expect_violation=True)
+            if not r.violated:
+                raise Infra("vacuity: the legacy computeAllowedMethods (all WebServices) was NOT refuted by OptionsTruthful")
+            mc_exhaustive.append({"counter_model": "computeAllowedMethods walks all WebServices (legacy)", "refuted_by": r.violated})
         for (mode, mtier), r in results:
             if r.violated:
                 raise Infra("design check failed: MC_Routing (%s/%s) violates %s - the specification itself is "
